@@ -1,21 +1,39 @@
 """C20 — comments reach docstrings intact; whitespace clean-up never changes code meaning."""
-from .. import env, coq, gen, apigen
-from . import c20_t0, c20_fixws as FW
+from .. import env, coq, gen, apigen, apis
+from . import c20_t0, c20_fixws as FW, c20_wrap as W, c20_doc as D
 
-RULE = ("fix_whitespace: a corpus of edge texts + blank-line/indentation layouts drawn from a grammar (indentation 0..12 and tabs, heads the "
-        "regexes look at, trailing blanks incl. \\t \\r \\f \\x1c, blank runs 0..6) + random whitespace-heavy strings + syntactically valid "
-        "Python modules with surplus blanks + every text the real generator hands to fix_whitespace while generating APIs (recorded in the "
-        "generator process). A case is one input text; distinct = distinct text; non-trivial = the implementation changed it.")
+RULE = ("fix_whitespace: corpus of edge texts + blank-line/indentation layouts from a grammar (indentation 0..12 and tabs, heads the regexes look at, "
+        "trailing blanks incl. \\t \\r \\f \\x1c, blank runs 0..6) + random whitespace-heavy strings + syntactically valid Python modules with surplus "
+        "blanks + every text the real generator hands to fix_whitespace while generating APIs (recorded inside the generator process). "
+        "wrap/rst: corpus + comment texts from a grammar (words, punctuation, blank lines, list markers, colons, tabs, runs of spaces, long tokens, quotes, "
+        "backslashes, \\r \\f \\x1c) x widths 1..80 x indents 0..16 x offsets with offset < width, + every (text, width, offset, indent) the templates pass "
+        "to the wrap/rst filters during those generations; textwrap contract and Metadata.doc on grammar texts; the character classes exhaustively over 0..127. "
+        "End to end: a one-service API with a comment on every kind of element (message, field, enum, enum value, service, method), benign comments and one "
+        "hazardous comment at a time (triple quotes, trailing backslash, backslash escapes, final quotes). "
+        "A case is one input (text, or text+parameters, or comment set); distinct = distinct canonical JSON; non-trivial = non-blank text / changed by the "
+        "implementation / at least one comment.")
 TRUSTED = [
     "Model/FixWs.v: hand-written model of formatter.fix_whitespace: the three regexes as continuation-passing backtracking matchers "
     "(greedy, alternatives left to right), re.sub as the leftmost non-overlapping scan, str.rstrip; tied by T0 (regex literals) and T2",
-    "contract: Python's re.sub / str.rstrip behave as Model/FixWs.v says on these three regexes for ASCII text (validated on every run by T2)",
+    "Model/Wrap.v: hand-written model of lines.wrap line by line (replace, first-line split, colon rule, textwrap.wrap call, list test, slice, "
+    "tokenisation, fill with indents, join, rstrip), of rst's plain path and quote guard, of Metadata.doc, and of CPython's textwrap as used "
+    "(expandtabs, whitespace translation, chunk split, _wrap_chunks with drop_whitespace and break_long_words=False); tied by T0 (regex literals, "
+    "textwrap keyword arguments, the 0.75 constant) and T2",
+    "contract: Python's re.sub / str methods / textwrap behave as the models say for ASCII text (validated on every run by T2, textwrap separately)",
     "Python's lexer fact: deleting blank lines and trailing blanks outside string literals does not change the AST (not proved; checked by the "
     "oracle with ast.parse/ast.dump on every Python source the run sees)",
-    "harness/gv/impl/c20pure.py, c20gen.py (recorders around the three functions inside the generator process), props/c20_t0.py (ast extractors)",
+    "pandoc is not modelled: rst's pandoc path is observed only as 'pypandoc.convert_text was called' (a recorder replaces it in the driver process)",
+    "harness/gv/impl/c20pure.py, c20gen.py (recorders around fix_whitespace / wrap / rst inside the generator process), props/c20_t0.py (ast extractors), "
+    "apigen + DescriptorPool as validity judge, ast.parse / ast.get_docstring as judges of the emitted modules",
 ]
-ASSUMES = ["ASCII text (DESIGN 4.1): the theorems hold for every byte string of the model, the model corresponds to Python only on ASCII; "
-           "non-ASCII texts go through the direct oracle only"]
+ASSUMES = [
+    "ASCII text (DESIGN 4.1): the theorems hold for every byte string of the model, the model corresponds to Python only on ASCII; "
+    "non-ASCII texts go through the direct oracle only",
+    "wrap: offset < width (the property's quantifier); words are str.split() words",
+    "wrap_words_preserved_partial / wrap_width_bound_partial carry no hypothesis but are partial (see Proofs/Wrap.v, Proofs/WrapWidth.v): the "
+    "first-line slice is not covered; outside first_line_safe the faithful model loses text (wrap_tab_refuted, wrap_leading_ws_refuted, "
+    "wrap_blank_first_line_refuted)",
+]
 
 
 def regen(ctx):
@@ -23,31 +41,176 @@ def regen(ctx):
     ctx.notes["t0"] = {k: (v if isinstance(v, str) else len(v)) for k, v in x.items()}
 
 
-def fixws_cases(ctx, n_layout, n_noise, n_python):
-    tagged = [("corpus", t) for t in FW.CORPUS]
-    tagged += [("layout", FW.gen_layout(env.rng("C20-fw-layout", i))) for i in range(n_layout)]
-    tagged += [("noise", FW.gen_noise(env.rng("C20-fw-noise", i))) for i in range(n_noise)]
-    tagged += [("python", FW.gen_python(env.rng("C20-fw-python", i))) for i in range(n_python)]
+# ---------------------------------------------------------------- pure part
+def fixws_cases(prefix, n_layout, n_noise, n_python):
+    tagged = [("layout", FW.gen_layout(env.rng(prefix + "-layout", i))) for i in range(n_layout)]
+    tagged += [("noise", FW.gen_noise(env.rng(prefix + "-noise", i))) for i in range(n_noise)]
+    tagged += [("python", FW.gen_python(env.rng(prefix + "-python", i))) for i in range(n_python)]
     return tagged
 
 
+RST_SHAPES = [(72, 0), (72, 4), (72, 8), (72, 12), (72, 16), (40, 4), (30, 8), (20, 2), (80, 16)]
+
+
+def rst_cases(prefix, n):
+    out = []
+    for i in range(n):
+        r = env.rng(prefix, i)
+        w, ind = r.choice(RST_SHAPES)
+        out.append((W.gen_text(r), w, ind, r.choice([None, None, True, False])))
+    return out
+
+
+def run_pure(ctx):
+    checks, _ = FW.run_cases(ctx, [("corpus", t) for t in FW.CORPUS] + fixws_cases("C20-fw", ctx.n(400, 6000), ctx.n(250, 4000), ctx.n(120, 1500)))
+    FW.evaluate(ctx, "c20fw", "fix_whitespace on corpus and grammar texts", checks)
+    wcases = list(W.CORPUS) + [W.gen_case(env.rng("C20-wrap", i)) for i in range(ctx.n(900, 12000))]
+    wchecks = W.run_wrap(ctx, wcases)
+    FW.evaluate(ctx, "c20wrap", "wrap on corpus and grammar comments x widths/offsets/indents", wchecks)
+    rchecks = W.run_rst(ctx, [("ends with quote\"", 72, 4, None), ("a `b`", 72, 4, None), ("", 72, 0, None)] + rst_cases("C20-rst", ctx.n(250, 3000)))
+    cchecks = W.run_contracts(ctx, ctx.n(250, 3000))
+    FW.evaluate(ctx, "c20rst", "rst (plain path, quote guard, pandoc decision), textwrap contract, Metadata.doc, character classes", rchecks + cchecks)
+
+
+# ---------------------------------------------------------------- end to end
+def grammar_comments(r):
+    """Benign comments from the grammar (no triple quote, no backslash, no pandoc trigger, no TAB / leading blank: those have their own cases)."""
+    def one():
+        for _ in range(50):
+            t = W.gen_text(r).strip()
+            if t and not any(ch in t for ch in '\\"|*`_[]\t\x1c\x1d\r\x0c') and t.isascii():
+                return t
+        return "Plain words only."
+    return {tgt: one() for tgt, _ in D.TARGETS}
+
+
+def e2e_jobs(ctx):
+    jobs = [("benign", dict(D.BENIGN), None)]
+    for i in range(ctx.n(3, 40)):
+        jobs.append(("grammar", grammar_comments(env.rng("C20-e2e-comments", i)), None))
+    hz = []
+    for sig, texts in D.HAZARDS.items():
+        for tx in texts:
+            for tgt, _ in D.TARGETS:
+                hz.append((sig, tx, tgt))
+    if ctx.tier == "quick":    # a spread: every class on service + message + one rotating target
+        keep = []
+        for k, (sig, tx, tgt) in enumerate(hz):
+            if texts_index(sig, tx) == 0 and tgt in ("service", "message", "method"):
+                keep.append((sig, tx, tgt))
+            elif texts_index(sig, tx) == 1 and tgt in ("service", "field"):
+                keep.append((sig, tx, tgt))
+        hz = keep
+    for sig, tx, tgt in hz:
+        c = dict(D.BENIGN)
+        c[tgt] = tx
+        jobs.append(("hazard:" + sig.split(".")[1], c, (tgt, tx)))
+    return jobs
+
+
+def texts_index(sig, tx):
+    return D.HAZARDS[sig].index(tx)
+
+
+def run_generation(req):
+    return gen.impl("c20gen", {"request_b64": apigen.req_b64(req)}, timeout=900)
+
+
+def run_e2e(ctx, jobs=None, conventional=None):
+    jobs = e2e_jobs(ctx) if jobs is None else jobs
+    reqs = []
+    for kind, comments, hazard in jobs:
+        reqs.append((kind, comments, hazard, D.build(comments)))
+    nconv = ctx.n(1, 8) if conventional is None else conventional
+    for i in range(nconv):
+        r = env.rng("C20-e2e-conv", i)
+        try:
+            reqs.append(("conventional", None, None, apis.conventional(r).request("transport=grpc+rest")))
+        except apigen.Invalid:
+            ctx.features["e2e:invalid-candidate"] += 1
+    outs = gen.pmap(lambda q: run_generation(q[3]), reqs)
+    fw_tagged, wrap_cases, rst_cases_ = [], [], []
+    seen_fw, seen_w, seen_r = set(), set(), set()
+    for (kind, comments, hazard, req), o in zip(reqs, outs):
+        case = {"kind": "e2e", "what": kind, "comments": comments, "request_b64": apigen.req_b64(req)}
+        ctx.case({"kind": "e2e", "what": kind, "comments": comments} if comments is not None else case, nontrivial=True, feature=["e2e:" + kind])
+        if o["files"] is None:
+            ctx.violation(f"generation failed for a {kind} API: {o['error'][-300:]}", case, None)
+            continue
+        sig = D.hazard_signature(*hazard) if hazard else None
+        pf = D.parse_failures(o["files"])
+        if pf:
+            where = f" (comment {hazard[1]!r} on the {hazard[0]})" if hazard else ""
+            ctx.violation(f"emitted module does not parse{where}: {pf[0][0]}: {pf[0][1]}; {len(pf)} file(s)", {**case, "parse_failures": pf[:6]}, sig)
+        elif comments is not None:
+            for tgt, detail in D.intact(comments, o["files"]):
+                ctx.violation(f"the {tgt} comment does not reach its docstring intact: {detail}", {**case, "target": tgt},
+                              sig if hazard and hazard[0] == tgt else None)
+        # every call the templates made, as further cases for the pure oracles and T2
+        for a, _b in o["fixws"]:
+            if a not in seen_fw:
+                seen_fw.add(a)
+                fw_tagged.append(("generated", a))
+        for text, width, offset, indent, _out in o["wrap"]:
+            k = (text, width, offset, indent)
+            if k not in seen_w:
+                seen_w.add(k)
+                wrap_cases.append(k)
+        for text, width, indent, nl, _sf, _out in o["rst"]:
+            k = (text, width, indent, nl)
+            if k not in seen_r:
+                seen_r.add(k)
+                rst_cases_.append(k)
+    # the hazard texts would be reported twice: the pure oracles only see the texts of benign / grammar / conventional runs here
+    cap = ctx.n(6000, 40000)
+    fw_tagged.sort(key=lambda kt: len(kt[1]))
+    checks, _ = FW.run_cases(ctx, fw_tagged, max_model_len=cap)
+    budget, kept = ctx.n(150000, 2000000), []
+    for c in checks:                       # bound the total size handed to coqc
+        budget -= len(c[1])
+        if budget < 0:
+            break
+        kept.append(c)
+    checks = kept
+    checks += W.run_wrap(ctx, wrap_cases, kind="generated")
+    checks += W.run_rst(ctx, rst_cases_, kind="generated")
+    FW.evaluate(ctx, "c20e2e", f"fix_whitespace / wrap / rst on the calls recorded during {len(reqs)} generations", checks)
+    ctx.notes["e2e"] = {"generations": len(reqs), "fix_whitespace_inputs": len(fw_tagged), "wrap_calls": len(wrap_cases), "rst_calls": len(rst_cases_)}
+
+
+def witnesses(ctx):
+    """The _refuted witnesses of Proofs/WrapWidth.v replayed on the implementation (each is a finding while it fails)."""
+    W.run_wrap(ctx, [("a\tb cccc dddd eeee", 12, 0, 0), ("  ab cd", 3, 0, 0), ("    ", 3, 0, 0)], kind="witness")
+
+
 def run(ctx):
-    checks, _ = FW.run_cases(ctx, fixws_cases(ctx, ctx.n(500, 6000), ctx.n(300, 4000), ctx.n(150, 1500)))
-    FW.evaluate(ctx, "c20fw", "fix_whitespace on grammar texts", checks)
+    witnesses(ctx)
+    run_pure(ctx)
+    run_e2e(ctx)
 
 
 def replay(ctx, rep):
     c = rep.get("case", {})
-    if c.get("kind") == "fixws":
+    k = c.get("kind")
+    if k == "fixws":
         checks, _ = FW.run_cases(ctx, [("replay", c["text"])])
         FW.evaluate(ctx, "c20fw", "fix_whitespace on the replayed text", checks)
+    elif k == "wrap":
+        FW.evaluate(ctx, "c20wrap", "wrap on the replayed case", W.run_wrap(ctx, [(c["text"], c["width"], c["offset"], c["indent"])], kind="replay"))
+    elif k == "rst":
+        FW.evaluate(ctx, "c20rst", "rst on the replayed case", W.run_rst(ctx, [(c["text"], c["width"], c["indent"], c["nl"])], kind="replay"))
+    elif k == "e2e" and c.get("comments") is not None:
+        hazard = None
+        for tgt, _ in D.TARGETS:
+            if c["comments"].get(tgt) is not None and D.hazard_signature(tgt, c["comments"][tgt]):
+                hazard = (tgt, c["comments"][tgt])
+        run_e2e(ctx, jobs=[(c.get("what", "replay"), c["comments"], hazard)], conventional=0)
     else:
         run(ctx)
 
 
 def search(ctx, broken):
     """A theorem, pin or correspondence broke and the oracle was silent: look harder (fresh, larger streams)."""
-    tagged = [("layout", FW.gen_layout(env.rng("C20-fw-search-layout", i))) for i in range(4000)]
-    tagged += [("noise", FW.gen_noise(env.rng("C20-fw-search-noise", i))) for i in range(3000)]
-    tagged += [("python", FW.gen_python(env.rng("C20-fw-search-python", i))) for i in range(1000)]
-    FW.run_cases(ctx, tagged)
+    FW.run_cases(ctx, fixws_cases("C20-search-fw", 4000, 3000, 1000))
+    W.run_wrap(ctx, [W.gen_case(env.rng("C20-search-wrap", i)) for i in range(12000)], kind="search")
+    W.run_rst(ctx, rst_cases("C20-search-rst", 3000), kind="search")
